@@ -134,7 +134,8 @@ class Monitor:
                 out.violate("C06.b", f"returned-u/{run.world['audit_type']}",
                             f"{cid}/{key}: returned bound {u}, expected {exp_u} (margin {asn.margin}, assorter bound "
                             f"{asn.assorter.upper_bound})")
-            bad = [x for x in d if not (-1e-12 <= x <= u + 1e-12)]
+            # no slack below 0: a datum of -1e-15 flips the sign of a martingale whose alternative sits at u (F-C06-1)
+            bad = [x for x in d if not (0 <= x <= u * (1 + 1e-12) + 1e-15)]
             if bad:
                 out.violate("C06.a", f"{run.world['contests'][cid]['audit_type']}/{run.world['contests'][cid]['choice_function']}",
                             f"{cid}/{key}: datum {bad[0]!r} outside [0, {u}] (round {r})")
@@ -149,11 +150,22 @@ class Monitor:
                 exp = [asn.assorter.assort(m) for m in run.mvr_sample]
             else:
                 exp = []
+                # the contest's sample is its first n_c cards in sample-number order: the cut-off is the n_c-th smallest
+                # number among the cards listing it (worked out here, not read from the library's bookkeeping)
+                thr = con.sample_threshold
+                n_c = int(getattr(run, "last_sizes", {}).get(cid, 0))
+                mine = sorted(c.sample_num for c in run.cvr_list if c.has_contest(cid))
+                if run.use_style and 1 <= n_c <= len(mine):
+                    thr = mine[n_c - 1]
+                    if con.sample_threshold != thr:
+                        out.violate("C06.d", f"threshold/{run.world['audit_type']}",
+                                    f"{cid}: {n_c} of its cards were asked for, the {n_c}-th in sample-number order has number "
+                                    f"{thr}, but the contest's cut-off is {con.sample_threshold} (round {r})")
                 for m, c in zip(run.mvr_sample, run.cvr_sample):
                     if run.use_style:
                         if not c.has_contest(cid):
                             continue
-                        if not (c.sample_num <= con.sample_threshold):
+                        if not (c.sample_num <= thr):
                             out.probe("threshold filter removed a sampled card")
                             continue
                     if c.pool:
